@@ -510,6 +510,19 @@ enum SlotReady {
 /// - the blockstore has stored a block for the previous slot.
 ///
 /// See [`SlotReady`] for what is returned.
+/// Verification hook: runs [`produce_slice_payload`] for out-of-crate harnesses.
+#[cfg(feature = "verif-hooks")]
+pub(crate) async fn verif_produce_slice_payload<T>(
+    txs_receiver: &T,
+    parent: Option<BlockId>,
+    duration_left: Duration,
+) -> (SlicePayload, Duration)
+where
+    T: TransactionNetwork,
+{
+    produce_slice_payload(txs_receiver, parent, duration_left).await
+}
+
 async fn wait_for_first_slot(
     pool: SharedPool,
     blockstore: SharedBlockstore,
